@@ -78,7 +78,8 @@ func rangeIndexToBytes(blkActualRangeKey string, blkRangeNumType sutils.RangeNum
 	return finalRangeIndex, byteCounter
 }
 
-func getCmi(cmbuf []byte) (*structs.CmiContainer, error) {
+func getCmi(cmbuf []byte) (_ *structs.CmiContainer, retErr error) {
+	defer utils.RecoverToError(&retErr, "getCmi")
 
 	cmic := &structs.CmiContainer{}
 
